@@ -165,6 +165,17 @@ theorem tosvg_interp (eq : α → α → Bool) (ge90 : α → Bool) (sub90 : α 
   simp only [svgInterp, hrun', Option.bind, hargs, if_true, hout]
   simp [svgInit]
 
+/-- Subpath structure survives ToSVG for every multi-subpath path, whatever its MoveTo targets
+coincide with (the current point after an open subpath, the start of a closed one, earlier starts):
+the decoded segments have the same MoveTo points in the same order and the same number of Closes —
+no MoveTo is ever omitted or reused, no two subpaths fuse. -/
+theorem tosvg_keeps_subpaths (eq : α → α → Bool) (ge90 : α → Bool) (sub90 : α → α)
+    (heq : ∀ a b, eq a b = true → a = b) (p : List (Cmd α)) (h : WellFormed zero p) :
+    ∃ segs, svgInterp add refl zero (toSVG eq ge90 sub90 (zero, zero) p) = some segs ∧
+      segStarts segs = cmdStarts p ∧ segCloses segs = cmdCloses p :=
+  ⟨_, tosvg_interp add refl zero eq ge90 sub90 heq p h,
+    (svgExpected_structure eq ge90 sub90 p (zero, zero)).1, (svgExpected_structure eq ge90 sub90 p (zero, zero)).2⟩
+
 /-- String(): `interp (print p) = segments of p`, unconditionally (no shorthand is ever chosen). -/
 theorem string_roundtrip (p : List (Cmd α)) (h : WellFormed zero p) :
     svgInterp add refl zero (toStr (zero, zero) p) = some (segsFrom (zero, zero) p) := by
@@ -300,6 +311,13 @@ example : toSVG (fun a b : Int => a == b) (fun r => decide (90 ≤ r)) (· - 90)
 example : svgInterp (· + ·) (fun p c : Int => 2 * p - c) 0
       [.cmd 'M', .num 1, .num 2, .cmd 'V', .num 5, .cmd 'A', .num 2, .num 3, .num 10, .flag true, .flag false, .num 4, .num 4, .cmd 'z'] =
     some [.move 1 2, .line 1 2 1 5, .arc 1 5 2 3 10 true false 4 4, .close 4 4 1 2] := by
+  decide
+-- coincident MoveTos: closed subpath, open subpath continued from its start, MoveTo onto that
+-- subpath's end — three subpaths are printed and three come back
+example : (svgInterp (· + ·) (fun p c : Int => 2 * p - c) 0
+      (toSVG (fun a b : Int => a == b) (fun r => decide (90 ≤ r)) (· - 90) (0, 0)
+        [.move 0 0, .line 10 0, .line 10 10, .close 0 0, .move 0 0, .line (-5) (-5), .move (-5) (-5), .line (-10) 0])).map segStarts =
+    some [(0, 0), (0, 0), (-5, -5)] := by
   decide
 -- the full grammar: relative commands, implicit repetition, S/T reflection
 example : svgInterp (· + ·) (fun p c : Int => 2 * p - c) 0
